@@ -12,7 +12,14 @@ PROP = {'areas': [{'area': 'engine',
             'only_prop': 'C01',
             'quick': 12000,
             'thorough': 2000000,
-            'tie_fields': ['done', 'ops', 'uq', 'rq', 'hq', 'cur', 'pwco', 'ppub', 'pnon', 'nextid', 'outcome']}],
+            'tie_fields': ['done', 'ops', 'uq', 'rq', 'hq', 'cur', 'pwco', 'ppub', 'pnon', 'nextid', 'outcome']},
+           {'area': 'c16',
+            'corpus': ['corpus/C16/witnesses.txt'],
+            'extra': ['table'],
+            'only_sig': '^c16-sound:RDupOnFirstDelivery',
+            'quick': 8000,
+            'thorough': 400000,
+            'tie_sig': '^$'}],
  'coq_target': 'Properties/C01.vo',
  'modelled': 'protocol.rs ProtocolState: handle_user_event, handle_network_event (opened / closed / incoming data / write completion), service '
              '(pending-connack / connected / pending-disconnect), get_next_service_timepoint, reset and every helper they call (operation table, three intake '
@@ -31,7 +38,9 @@ PROP = {'areas': [{'area': 'engine',
          'response (outcome, state, completions, packet events, bytes, next service time, full bookkeeping snapshot) is compared (kind=tie, with the set of '
          "diverging fields); the extracted monitors of Engine/Monitors.v judge the IMPLEMENTATION's observation (kind=property, with the first observation at "
          'which the monitor turns false and the script that reproduces it). distinct = distinct command scripts; non-trivial = reached at least one '
-         'interesting predicate (x_interesting_predicates_reached)'}
+         'interesting predicate (x_interesting_predicates_reached) || SUBMISSION PREMISE: the run-level theorems assume that a submitted PUBLISH has DUP = 0; '
+         'the clients guarantee it by validate_packet_outbound, which the validation area checks against the real function on every run (a packet with DUP = 1 '
+         'or a preset packet id accepted at submission is a failing input for this property).'}
 
 META = {'design_ref': 'DESIGN.md section 7 / C01',
  'level_note': 'Trusted: Coq kernel; the tie (facade engine.rs, harness, OCaml driver incl. the generator); the reference codec used by the simulated broker '
